@@ -67,14 +67,15 @@ package tm
 //@   loop 1 decreases config.RollbackRetryCount - bf.numRetries
 
 //@ func (*GlobalTransactionManager).Begin
-//@   prop C04
-//@   requires ctx != nil && ghost.begin_sends == 0
+//@   prop C04 C07
+//@   requires ctx != nil
 //@   let cv := ctxvalue(ctx, seataContextVariable)
 //@   requires isT(cv, *ContextVariable) && cv.(*ContextVariable) != nil
 //@   let xid0 := cv.(*ContextVariable).Xid
-//@   ensures one-request: ghost.begin_sends == 1 && ghost.commit_sends == old(ghost.commit_sends) && ghost.rollback_sends == old(ghost.rollback_sends)
+//@   ensures one-request: ghost.begin_sends == old(ghost.begin_sends) + 1 && ghost.commit_sends == old(ghost.commit_sends) && ghost.rollback_sends == old(ghost.rollback_sends)
 //@   ensures failure-surfaces: ghost.last_send_failed ==> result != nil
 //@   ensures xid-only-on-success: result != nil ==> cv.(*ContextVariable).Xid == xid0
+//@   ensures xid-from-response: result == nil ==> cv.(*ContextVariable).Xid == ghost.begin_xid && !ghost.last_send_failed
 
 // The business callback: any result, may panic; it is assumed to leave the transaction context
 // variable as it found it (this is what C07/frame proves for nested scopes).
@@ -102,13 +103,34 @@ package tm
 //@   ensures truthful-nil: role == Launcher && result == nil ==> (isSuccess && ghost.commit_acked) || (!isSuccess && ghost.rollback_acked)
 //@   ensures unknown-role: role == UnKnow ==> result != nil
 
-// begin: verified in detail under C07; for C04 only its frame on the coordinator traffic matters.
+// begin: the six propagation modes against the documented semantics (oracle: the property
+// statement / constant.go): Required, Supports, Mandatory join an existing transaction (no Begin
+// request, xid kept, role Participant); RequiresNew always begins an independent transaction;
+// NotSupported and Never run without a transaction; Mandatory / Never fail when their precondition
+// is unmet.
 //@ func begin
-//@   requires ctx != nil
+//@   prop C07
+//@   requires ctx != nil && gc != nil
 //@   let cv := ctxvalue(ctx, seataContextVariable)
 //@   requires isT(cv, *ContextVariable) && cv.(*ContextVariable) != nil
-//@   modifies cv.(*ContextVariable).Xid, cv.(*ContextVariable).XidCopy, cv.(*ContextVariable).TxName, cv.(*ContextVariable).TxStatus, cv.(*ContextVariable).TxRole, ghost.begin_sends, ghost.last_send_failed
-//@   ensures ghost.commit_sends == old(ghost.commit_sends) && ghost.rollback_sends == old(ghost.rollback_sends)
+//@   let v := cv.(*ContextVariable)
+//@   let xid0 := v.Xid
+//@   let present := v.Xid != ""
+//@   let pg := gc.Propagation
+//@   modifies v.Xid, v.XidCopy, v.TxName, v.TxStatus, v.TxRole, ghost.begin_sends, ghost.last_send_failed, ghost.begin_xid
+//@   ensures no-second-phase-traffic: ghost.commit_sends == old(ghost.commit_sends) && ghost.rollback_sends == old(ghost.rollback_sends)
+//@   ensures required-join: pg == Required && present ==> result == nil && ghost.begin_sends == old(ghost.begin_sends) && v.Xid == xid0 && v.TxRole == Participant && v.TxName == gc.Name
+//@   ensures supports-join: pg == Supports && present ==> result == nil && ghost.begin_sends == old(ghost.begin_sends) && v.Xid == xid0 && v.TxRole == Participant && v.TxName == gc.Name
+//@   ensures mandatory-join: pg == Mandatory && present ==> result == nil && ghost.begin_sends == old(ghost.begin_sends) && v.Xid == xid0 && v.TxRole == Participant && v.TxName == gc.Name
+//@   ensures required-new: pg == Required && !present ==> ghost.begin_sends == old(ghost.begin_sends) + 1 && (result == nil ==> v.TxRole == Launcher && v.TxName == gc.Name && v.Xid == ghost.begin_xid)
+//@   ensures requiresnew-new: pg == RequiresNew ==> ghost.begin_sends == old(ghost.begin_sends) + 1 && (result == nil ==> v.TxRole == Launcher && v.TxName == gc.Name && v.Xid == ghost.begin_xid)
+//@   ensures supports-none: pg == Supports && !present ==> result == nil && ghost.begin_sends == old(ghost.begin_sends) && v.Xid == ""
+//@   ensures notsupported-none: pg == NotSupported ==> result == nil && ghost.begin_sends == old(ghost.begin_sends) && v.Xid == ""
+//@   ensures never-none: pg == Never && !present ==> result == nil && ghost.begin_sends == old(ghost.begin_sends) && v.Xid == ""
+//@   ensures never-error: pg == Never && present ==> result != nil && ghost.begin_sends == old(ghost.begin_sends)
+//@   ensures mandatory-error: pg == Mandatory && !present ==> result != nil && ghost.begin_sends == old(ghost.begin_sends)
+//@   ensures unknown-mode: pg != Required && pg != RequiresNew && pg != NotSupported && pg != Supports && pg != Never && pg != Mandatory ==> result != nil && ghost.begin_sends == old(ghost.begin_sends)
+//@   ensures begin-failure: ghost.begin_sends == old(ghost.begin_sends) + 1 && ghost.last_send_failed ==> result != nil
 
 //@ func WithGlobalTx
 //@   prop C04 C07
